@@ -53,6 +53,7 @@ class Gen:
         self.fn_depth = 0
         self.budget = 0
         self.no_shadow = set()
+        self.no_assign = []  # variables that are being assigned by an enclosing statement
 
     # ---------------------------------------------------------------- helpers
     def fresh(self, p="v"):
@@ -298,7 +299,7 @@ class Gen:
             # operand is sometimes a block with an effect, which must happen exactly once
             small = Lit(ty, self.rng.randint(0, ty.bits - 1))
             other = r
-            muts = self.vars_of(lambda t, m: m and isinstance(t, TInt))
+            muts = [v for v in self.vars_of(lambda t, m: m and isinstance(t, TInt)) if v[0] not in self.no_assign]
             if muts and self.chance(0.5):
                 # `{ counter += 1; value }`: a non-idempotent effect, visible if it happens more than once
                 n, t, _ = self.pick(muts)
@@ -577,7 +578,19 @@ class Gen:
         return st
 
     def s_assign(self, d):
-        n, t, m = self.pick(self.vars_of(lambda t, m: m))
+        # the target must not be assigned again inside its own index / value expressions (the order
+        # of such effects is not fixed by the guide and Rust rejects most of these programs)
+        cands = [v for v in self.vars_of(lambda t, m: m) if v[0] not in self.no_assign]
+        if not cands:
+            return self.s_let(d)
+        n, t, m = self.pick(cands)
+        self.no_assign.append(n)
+        try:
+            return self.s_assign_to(n, t, d)
+        finally:
+            self.no_assign.pop()
+
+    def s_assign_to(self, n, t, d):
         accs = []
         cur = t
         while True:
@@ -587,7 +600,7 @@ class Gen:
                 if cur.n == 0:
                     break
                 idx = self.index_expr(cur.n, d)
-                muts = [v for v in self.vars_of(lambda t, m: m and isinstance(t, TInt)) if v[0] != n]
+                muts = [v for v in self.vars_of(lambda t, m: m and isinstance(t, TInt)) if v[0] not in self.no_assign]
                 if muts and self.chance(0.15):
                     # index expression with an effect: `a[{ counter += 1; i }] op= v` must run it once
                     cn, ct, _ = self.pick(muts)
@@ -655,9 +668,36 @@ class Gen:
             self.scopes.pop()
         return ExprStmt(Match(scrut, arms, UNIT))
 
+    def s_forjoin(self, d):
+        """for-join loop over two array literals whose keys are strictly ascending constants (so the
+        documented precondition holds by construction) and whose payloads are arbitrary expressions"""
+        kty = self.pick([U8, U16])
+        pa, pb = self.rand_scalar(), self.rand_scalar()
+        ta, tb = TTup([kty, pa]), TTup([kty, pb])
+        na, nb = self.rng.randint(1, 3), self.rng.randint(1, 3)
+        pool = sorted(self.rng.sample(range(0, 8), min(8, na + nb)))
+        ka = sorted(self.rng.sample(pool, na))
+        kb = sorted(self.rng.sample(pool, nb))
+        self.no_struct += 1
+        try:
+            a = ArrLit([TupLit([Lit(kty, k), self.expr(pa, d - 1)]) for k in ka], TArr(ta, na))
+            b = ArrLit([TupLit([Lit(kty, k), self.expr(pb, d - 1)]) for k in kb], TArr(tb, nb))
+        finally:
+            self.no_struct -= 1
+        pat = self.irrefutable_pattern(TTup([ta, tb]))
+        self.scopes.append({})
+        self.declare_pattern(pat, TTup([ta, tb]))
+        body = [st for st in (self.stmt(d - 1) for _ in range(self.rng.randint(1, 2))) if st is not None]
+        if self.vars_of(lambda t, m: m):
+            body.append(self.s_assign(d - 1))
+        self.scopes.pop()
+        return ForJoin(pat, a, b, body)
+
     def s_for(self, d):
         if d <= 0:
             return self.s_assign(d)
+        if self.chance(0.2):
+            return self.s_forjoin(d)
         ety = self.rand_type(1)
         n = self.rng.randint(1, self.cfg.max_arr)
         aty = TArr(ety, n)
